@@ -435,4 +435,117 @@ theorem diag_attrOf {rm} (v : Val) (a : String) (l : Bool) : Diag rm (attrOf v a
   · exact Diag.bind (Diag.throw _) fun _ => key
   · exact key
 
+
+/-! ### the expression evaluator -/
+
+theorem Diag.forIn {rm α β} (body : α → β → M (ForInStep β)) (hb : ∀ a b, Diag rm (body a b)) :
+    ∀ (l : List α) (init : β), Diag rm (forIn l init body)
+  | [], init => by simpa using Diag.pure init
+  | a :: l, init => by
+    rw [List.forIn_cons]
+    refine Diag.bind (hb a init) fun r => ?_
+    cases r with
+    | done b => exact Diag.pure b
+    | yield b => exact Diag.forIn body hb l b
+
+theorem Diag.mapM {rm α β} (f : α → M β) (hf : ∀ a, Diag rm (f a)) : ∀ l : List α, Diag rm (l.mapM f)
+  | [] => by simpa using Diag.pure ([] : List β)
+  | a :: l => by
+    rw [List.mapM_cons]
+    exact Diag.bind (hf a) fun b => Diag.bind (Diag.mapM f hf l) fun bs => Diag.pure _
+
+theorem sim_freshUid {rm s s'} (h : Aged rm s s') : Sim2U rm Eq freshUid freshUid s s' := by
+  refine ⟨?_, { h with nextUid := by simp [h.nextUid] }⟩
+  simp [h.nextUid]
+
+theorem diag_freshUid {rm} : Diag rm freshUid := fun _ _ h => sim_freshUid h
+
+theorem tryCatch_run {α} (x : M α) (hd : VMErr → M α) (s : VM) :
+    (tryCatch x hd) s = match x s with | .ok a s1 => .ok a s1 | .error e s1 => hd e s1 := by
+  simp only [tryCatch, tryCatchThe, MonadExceptOf.tryCatch, EStateM.tryCatch]
+  cases x s <;> rfl
+
+/-- the evaluator's `try: … except Exception as e: raise ColangValueError(…)`: a Python exception is re-raised as another
+    Python exception (a function of its message), the model's own stops propagate -/
+theorem diag_tryCatchPy {rm α} {x : M α} (hx : Diag rm x) (hd : VMErr → M α)
+    (hpy : ∀ c m, ∃ c' m', ∀ s, hd (.py c m) s = .error (.py c' m') s)
+    (hother : ∀ e, gaveUp e → ∀ s, hd e s = .error e s) :
+    Diag rm (tryCatch x hd) := by
+  intro s s' h
+  have := hx s s' h
+  unfold Sim2U at this ⊢
+  rw [tryCatch_run, tryCatch_run]
+  cases h1 : x s with
+  | ok a s1 =>
+    cases h2 : x s' with
+    | ok a' s1' => rw [h1, h2] at this; exact this
+    | error e' s1' =>
+      rw [h1, h2] at this
+      simp only [OutU] at this ⊢
+      rw [hother e' this]
+      exact this
+  | error e s1 =>
+    cases h2 : x s' with
+    | ok a' s1' =>
+      rw [h1, h2] at this
+      simp only [OutU] at this ⊢
+      rw [hother e this]
+      exact this
+    | error e' s1' =>
+      rw [h1, h2] at this
+      simp only [OutU] at this ⊢
+      rcases this with hg | hg | ⟨rfl, ha⟩
+      · rw [hother e hg]; exact OutU.of_gaveUp_left hg _
+      · rw [hother e' hg]; exact OutU.of_gaveUp_right hg _
+      · cases e with
+        | py c m =>
+          obtain ⟨c', m', hh⟩ := hpy c m
+          rw [hh, hh]
+          exact .inr (.inr ⟨rfl, ha⟩)
+        | outOfFuel => simp only [hother .outOfFuel trivial]; exact .inl trivial
+        | unsupported w => simp only [hother (.unsupported w) trivial]; exact .inl trivial
+        | guardFailed w => simp only [hother (.guardFailed w) trivial]; exact .inl trivial
+
+
+theorem diag_lookupVar {rm} (c : EvalCtx) (n : String) : Diag rm (lookupVar c n) := fun _ _ h => sim_lookupVar h c n
+
+/-- **`eval_expression`**: evaluating any expression of the mini language in the aged state gives the value / raises the
+    Python exception it gives in the live state, and leaves related states — or the model gives up -/
+theorem diag_eval {rm} (c : EvalCtx) : ∀ fuel : Nat, (∀ e, Diag rm (evalExpr c fuel e)) ∧ (∀ e, Diag rm (evalBase c fuel e))
+  | 0 => ⟨fun e => by unfold evalExpr; exact Diag.throw _, fun e => by unfold evalBase; exact Diag.throw _⟩
+  | fuel + 1 => by
+    have ih := diag_eval (rm := rm) c fuel
+    constructor
+    · intro e
+      unfold evalExpr
+      split
+      all_goals repeat' (first
+        | exact Diag.pure _
+        | exact Diag.throw _
+        | exact ih.1 _
+        | exact ih.2 _
+        | exact diag_freshUid
+        | exact diag_attrOf _ _ _
+        | exact diag_lookupVar _ _
+        | refine Diag.bind ?_ (fun _ => ?_)
+        | refine Diag.forIn _ (fun _ _ => ?_) _ _
+        | refine Diag.mapM _ (fun _ => ?_) _
+        | exact diag_tryCatchPy (ih.1 _) _ (fun c m => ⟨_, _, fun s => rfl⟩)
+            (fun e he s => by cases e <;> first | exact he.elim | rfl)
+        | split
+        | dsimp only)
+    · intro e
+      unfold evalBase
+      dsimp only
+      split
+      all_goals repeat' (first
+        | exact Diag.pure _
+        | exact Diag.throw _
+        | exact ih.1 _
+        | exact ih.2 _
+        | exact diag_attrOf _ _ _
+        | exact diag_lookupVar _ _
+        | refine Diag.bind ?_ (fun _ => ?_)
+        | split)
+
 end NemoVerif.C11.Bisim
